@@ -10,6 +10,7 @@ Go ↔ Lean
 Go maps are association lists with `Routing.ainsert` (assignment replaces); error values are Kafka codes (0 = nil).
 -/
 import KafkaVerif.Model.Routing
+import KafkaVerif.Gen.Mappings
 
 namespace KV.Mappings
 open KV.Routing (ainsert lookupD MResponse MBroker MTopic MPartition)
@@ -47,10 +48,13 @@ structure UOFResponse where
   error : Int
   deriving DecidableEq, Repr, Inhabited
 
-/-- request side: `nil` topics (all topics of the group) when the user's map is empty; the user's map is listed
-in some order (Go map iteration) — `topics` is that listing -/
+/-- request side: the user's map is listed in some order (Go map iteration) — `topics` is that listing; when it is
+empty the slice handed to the protocol request keeps its initial value, which the source declares nil
+(`Gen.Mappings.offsetFetchTopicsStartNil`, regenerated): `none` = NULL array = all topics of the group, `some []`
+= an empty array = no topic -/
 def offsetFetchRequest (group : String) (topics : List (String × List Int)) : String × Option (List (String × List Int)) :=
-  (group, if topics.length > 0 then some (topics.map fun (t, ps) => (t, ps.map id)) else none)
+  (group, if topics.length > 0 then some (topics.map fun (t, ps) => (t, ps.map id))
+          else if KV.Gen.Mappings.offsetFetchTopicsStartNil then none else some [])
 
 def convOF (p : OFPart) : UOFPart := ⟨p.index, p.offset, p.metadata, p.error⟩
 
